@@ -22,8 +22,9 @@ class Part:
 class Aux:
     """a small helper function extracted whole (signature + body) and emitted as a static C function
     next to the unit (it is analysed inline, not replaced by a contract)"""
-    def __init__(self, cname, ret, header, scopes, anchor, nth=0, xform=None):
-        self.cname, self.ret, self.header, self.scopes, self.anchor, self.nth, self.xform = cname, ret, header, scopes, anchor, nth, xform
+    def __init__(self, cname, ret, header, scopes, anchor, nth=0, xform=None, params=None, lambda_body=False):
+        self.cname, self.ret, self.header, self.scopes, self.anchor, self.nth, self.xform, self.params = cname, ret, header, scopes, anchor, nth, xform, params
+        self.lambda_body = lambda_body    # the anchor is a call taking a lambda: the function body is the lambda's body (first '{' after the anchor)
 
 def extract_aux(aux, F):
     tk = header_tokens(aux.header)
@@ -34,6 +35,9 @@ def extract_aux(aux, F):
     hits = cxx2c.find_all(tk, toks(aux.anchor), s, e)
     if len(hits) <= aux.nth: raise Drift("aux anchor not found: " + aux.anchor)
     a, b, _ = hits[aux.nth]
+    if aux.lambda_body:
+        while tk[b] != '[': b += 1
+        b = cxx2c.match_close(tk, b, '[', ']') + 1
     while tk[b] != '(': b += 1
     pe = cxx2c.match_close(tk, b, '(', ')')
     params = split_tok_params(tk[b + 1:pe])
@@ -52,6 +56,7 @@ def extract_aux(aux, F):
     else: body = cxx2c.strip_pp(body)
     F.hit('AUX')
     rel = 'include/boost/msm/' + aux.header
+    if aux.params is not None: ps = [aux.params]
     return 'static %s %s(%s)\n{\n%s\n}\n' % (aux.ret, aux.cname, ', '.join(ps), cxx2c.emit(body, rel)), \
         dict(header=rel, first_line=tk[a].line, last_line=tk[bc].line, body_tokens=len(body), body_sha256=cxx2c.sha(body), verbatim_ratio=1.0, aux=aux.cname)
 
@@ -68,7 +73,7 @@ class Unit:
     def __init__(self, name, props, backend, parts, csig, spec, xform=None, compose=None, aux=(),
                  enforce=None, rec=False, replace='auto', no_replace=(), loops=None, defines=(),
                  cbmc_flags=(), harness=None, fire=None, replay=(), smt=None, timeout=None,
-                 bounded=None, unwind=None, extra_c='', pre_c='', notes='', max_fail_labels=None, must_contain=(), trusted=(), thorough_only=False, also_replace=(), also_replace_if_present=()):
+                 bounded=None, unwind=None, extra_c='', pre_c='', notes='', max_fail_labels=None, must_contain=(), trusted=(), thorough_only=False, also_replace=(), also_replace_if_present=(), mode='contract'):
         self.name, self.props, self.backend = name, list(props), backend
         self.parts = parts if isinstance(parts, list) else [parts]
         self.csig, self.spec = csig, spec if isinstance(spec, (list, tuple)) else [spec]
@@ -85,6 +90,7 @@ class Unit:
         self.unwind = unwind
         self.extra_c = extra_c; self.pre_c = pre_c; self.notes = notes
         self.aux = list(aux)
+        self.mode = mode     # 'contract' (dfcc enforce/replace) or 'bounded' (plain cbmc on the harness with --unwind, never counted as proof)
         self.also_replace = list(also_replace); self.also_replace_if_present = list(also_replace_if_present)
         self.must_contain = list(must_contain); self.trusted = list(trusted); self.thorough_only = thorough_only
 
@@ -324,13 +330,17 @@ def verify_unit(unit, workdir, tier='quick'):
     if b['n_loops'] and unit.loops:
         gi += ['--apply-loop-contracts']
     gi += ['a.gb', 'b.gb']
-    rc, out, _ = run(gi, workdir, 300, log)
-    if rc != 0:
-        res['undecided'] = 'goto-instrument failed: ' + first_error(out)
-        return res
+    if unit.mode == 'bounded':
+        shutil.copy(os.path.join(workdir, 'a.gb'), os.path.join(workdir, 'b.gb'))
+        gi = ['(bounded stand-in: no contract instrumentation)', 'a.gb', 'b.gb']
+    else:
+        rc, out, _ = run(gi, workdir, 300, log)
+        if rc != 0:
+            res['undecided'] = 'goto-instrument failed: ' + first_error(out)
+            return res
     if unit.loops and 'loop_invariant' not in ' '.join(unit.loops.values()):
         pass
-    cb = ['cbmc', 'b.gb', '--bounds-check', '--pointer-check', '--signed-overflow-check', '--json-ui', '--trace'] + unit.cbmc_flags
+    cb = ['cbmc', 'b.gb', '--bounds-check', '--pointer-check', '--json-ui', '--trace'] + ([] if '--no-signed-overflow-check' in unit.cbmc_flags else ['--signed-overflow-check']) + unit.cbmc_flags
     if unit.unwind:
         uw = unit.unwind[tier] if isinstance(unit.unwind, dict) else unit.unwind
         cb += ['--unwind', str(uw), '--unwinding-assertions']
@@ -370,13 +380,16 @@ def verify_unit(unit, workdir, tier='quick'):
             p = f if os.path.isabs(f) else os.path.normpath(os.path.join(workdir, f))
             if not os.path.exists(p): p = os.path.join(CONTRACTS, f)
             label = labels_of(p).get(line)
+        if not label:
+            m = re.match(r'(C\d\d[\w,]*\.[\w-]+)', desc)
+            if m: label = m.group(1)
         chk = dict(id=r['property'], status=r['status'], desc=desc, file=f, line=line, label=label,
                    function=loc.get('function', ''))
         if r['status'] == 'FAILURE' and 'trace' in r:
             chk['trace'] = summarize_trace(r['trace'])
         res['checks'].append(chk)
     res['canary'] = 'failed-as-expected' if canary_failed else 'NOT-REACHED'
-    if not canary_failed:
+    if not canary_failed and unit.mode != 'bounded':
         res['undecided'] = 'vacuity guard: canary after the unit call is unreachable (contradictory requires?)'
     if unit.loops:
         if not any('loop_invariant' in c['id'] or 'loop invariant' in c['desc'] for c in res['checks']):
